@@ -5,7 +5,7 @@ import ast
 from functools import cached_property
 
 from ..cfg import CFG, Node, handler_names, iter_own
-from ..loader import AnalysisError, ClassInfo, FuncInfo, dotted, walk_own
+from ..loader import exc_expr, AnalysisError, ClassInfo, FuncInfo, dotted, walk_own
 from .common import Anchors, call_name, is_const, names_in, self_attr
 from .discharge import controlling_tests
 
@@ -412,7 +412,7 @@ def run(ctx) -> None:
         t = vtests[0]
         side = [d for d, lab in t.succ if lab == "t"]
         first = scfg.nodes[side[0]] if side else None
-        rep.check("C08.R6", first is not None and isinstance(first.ast, ast.Raise) and "ValueError" in ast.unparse(first.ast.exc) and scfg.dominates(t.id, spawn_nodes[0].id), S, t.ast, "an invalid teardown_action raises ValueError before the task is spawned", "an invalid teardown_action is detected only after the task was spawned (or not with ValueError)")
+        rep.check("C08.R6", first is not None and isinstance(first.ast, ast.Raise) and "ValueError" in ast.unparse(exc_expr(first.ast)) and scfg.dominates(t.id, spawn_nodes[0].id), S, t.ast, "an invalid teardown_action raises ValueError before the task is spawned", "an invalid teardown_action is detected only after the task was spawned (or not with ValueError)")
 
     # ------------------------------------------------------------------ R7 handle isolation
     handle_isolation(ctx, ta, "C08.R7")
